@@ -375,7 +375,9 @@ func tracerOut(name string, raw []byte, err error) SEv {
 	return e
 }
 
-func accessListWarm(p *gen.Program) ([]common.Address, []common.Hash) { return p.WarmAddrs, p.WarmSlots }
+func accessListWarm(p *gen.Program) ([]common.Address, []common.Hash) {
+	return p.WarmAddrs, p.WarmSlots
+}
 
 func runArtela(p *gen.Program, o runOpts) (out runOut) {
 	st := prepState(p)
@@ -432,6 +434,10 @@ func runArtela(p *gen.Program, o runOpts) (out runOut) {
 		}()
 		ctx := e.Ctx
 		caller := vm.AccountRef(gen.EO)
+		if tee != nil {
+			tee.CaptureTxStart(o.gas) // the state transition brackets the EVM call with these two
+			defer func() { tee.CaptureTxEnd(left) }()
+		}
 		switch p.Entry {
 		case "call":
 			ret, left, err = e.EVM.Call(ctx, caller, p.To, p.Input, o.gas, p.Value)
@@ -543,6 +549,10 @@ func runRef(p *gen.Program, o runOpts) (out runOut) {
 			}
 		}()
 		caller := refvm.AccountRef(gen.EO)
+		if tracer != nil {
+			tracer.CaptureTxStart(o.gas)
+			defer func() { tracer.CaptureTxEnd(left) }()
+		}
 		switch p.Entry {
 		case "call":
 			ret, left, err = e.EVM.Call(caller, p.To, p.Input, o.gas, p.Value)
@@ -705,9 +715,17 @@ func traceCmd(args []string) int {
 		progs = append(progs, g.Next(i))
 	}
 	if *matrix > 0 {
+		// single-opcode vectors are thinned out by -matrix; the interaction programs (pairs, nests, calls, sstore) always run
 		m := gen.Matrix()
-		for i := int(*seed) % *matrix; i < len(m); i += *matrix {
-			progs = append(progs, m[i])
+		k := 0
+		for _, mp := range m {
+			if mp.Name == "matrix" {
+				k++
+				if (k+int(*seed))%*matrix != 0 {
+					continue
+				}
+			}
+			progs = append(progs, mp)
 		}
 	}
 	rep := &traceReport{ByName: map[string]int{}, ByFork: map[string]int{}, ByEntry: map[string]int{}}
@@ -749,7 +767,7 @@ func traceCmd(args []string) int {
 				batchLines[bi] += 2000 // provisional, corrected below
 				mu.Unlock()
 				written := 0
-				withTracers := *tracersEvery > 0 && j.i%*tracersEvery == 0
+				withTracers := *tracersEvery > 0 && (j.i%*tracersEvery == 0 || strings.HasPrefix(p.Name, "nest:"))
 				type variant struct {
 					cfg string
 					o   runOpts
